@@ -32,6 +32,8 @@ type stubTransport struct {
 	endErr    error // error delivered after the last group
 	stalled   bool
 	blockEnd  chan struct{} // if non-nil: at end of input block until closed instead of returning endErr at once
+	feed      chan []byte   // if non-nil: once the groups are exhausted, further input arrives here (closed = connection lost)
+	feedBuf   []byte
 	delivered int
 
 	dec *xml.Decoder
@@ -71,6 +73,22 @@ func (t *stubTransport) Read(p []byte) (int, error) {
 		t.off = 0
 		t.delivered = t.gi
 	}
+	if t.gi >= len(t.groups) && t.feed != nil {
+		if len(t.feedBuf) == 0 {
+			f := t.feed
+			t.mu.Unlock()
+			data, ok := <-f
+			if !ok {
+				return 0, t.endErr
+			}
+			t.mu.Lock()
+			t.feedBuf = data
+		}
+		n := copy(p, t.feedBuf)
+		t.feedBuf = t.feedBuf[n:]
+		t.mu.Unlock()
+		return n, nil
+	}
 	if t.gi >= len(t.groups) {
 		be := t.blockEnd
 		t.mu.Unlock()
@@ -99,6 +117,18 @@ func (t *stubTransport) Read(p []byte) (int, error) {
 	}
 	t.mu.Unlock()
 	return n, nil
+}
+
+// exhausted: every scripted byte has been handed out.
+func (t *stubTransport) exhausted() bool {
+	t.mu.Lock()
+	defer t.mu.Unlock()
+	gi, off := t.gi, t.off
+	for gi < len(t.groups) && off >= len(t.groups[gi]) {
+		gi++
+		off = 0
+	}
+	return gi >= len(t.groups)
 }
 
 func (t *stubTransport) Write(p []byte) (int, error) {
